@@ -113,16 +113,16 @@ var coverPatterns = []string{
 	`^ecc/goldilocks\.(FromBytes|\(\*Point\)\.UnmarshalBinary)$`, `^ecc/fourq\.\(\*Point\)\.Unmarshal$`,
 	`^dh/(curve4q|x25519|x448)\.`, `^dh/csidh\.\(\*(PublicKey|PrivateKey)\)\.Import$`, `^dh/sidh\.\(\*(PublicKey|PrivateKey)\)\.Import$`,
 	`^group\.<unexported>\.UnmarshalBinary$`, `^oprf\.\(\*(PublicKey|PrivateKey)\)\.UnmarshalBinary$`,
-	`^oprf\..*(Finalize|VerifyFinalize)$`,                     // C16
+	`^oprf\..*(Finalize|VerifyFinalize)$`,                    // C16
 	`^zk/dleq\.`, `^zk/dl\.Verify$`, `^zk/qndleq\..*Verify$`, // C10 registry (dleq) and C16
 	`^tss/rsa\.\(\*(KeyShare|SignShare)\)\.UnmarshalBinary$`, `^tss/rsa\.CombineSignShares$`,
 	`^cipher/ascon\.\(\*Cipher\)\.Open$`,
 	`^abe/cpabe/tkn20\.`,
-	`^blindsign/.*(Finalize|Verify)$`,                  // C18
-	`^secretsharing\.(Verify|Recover)$`,                // C17
-	`^vdaf/prio3/.*`,                                   // C19 links (flips, truncation) and C10 prio3 entries
-	`^pke/kyber/.*`,                                    // reached through kem/kyber and kem/mlkem
-	`^dh/sidh\.\(\*KEM\)\.Decapsulate$`,                // through kem/sike
+	`^blindsign/.*(Finalize|Verify)$`,   // C18
+	`^secretsharing\.(Verify|Recover)$`, // C17
+	`^vdaf/prio3/.*`,                    // C19 links (flips, truncation) and C10 prio3 entries
+	`^pke/kyber/.*`,                     // reached through kem/kyber and kem/mlkem
+	`^dh/sidh\.\(\*KEM\)\.Decapsulate$`, // through kem/sike
 }
 
 // UncoveredCandidates lists candidates that no pattern claims.
